@@ -114,7 +114,8 @@ def tup(x):
     return x
 
 
-ALL_TASKS = ["beat", "onset", "tempo", "key", "alignment", "pattern", "melody", "multipitch", "segment"]
+ALL_TASKS = ["beat", "onset", "tempo", "key", "alignment", "pattern", "melody", "multipitch", "segment", "chord",
+             "transcription", "transcription_velocity"]
 
 
 def tasks():
